@@ -205,6 +205,11 @@ func (f *FnVC) binop(st *State, op token.Token, a, b Val, rt types.Type, pos tok
 		if f.checks["div"] {
 			f.oblige("div", f.srcKey(pos), st, not(eq(b.T, bvLit(0, w))), pos, "division by zero")
 		}
+		if _, isConst := constU64(b.T); !isConst && w == 64 && !strings.HasPrefix(b.T.S, "#") {
+			// symbolic divisor: division circuits make solvers crawl. Use an uninterpreted function constrained by the
+			// arithmetic facts that matter for index arithmetic (sound: these are theorems about Go's / and %).
+			return mk(f.symbolicDivRem(op, signed, a.T, b.T))
+		}
 		if op == token.QUO {
 			if signed {
 				return mk(app("bvsdiv", sort, a.T, b.T))
